@@ -130,22 +130,42 @@ def run(res, tier="quick", seed=0, widen=False):
         ser = pd.Series([np.nan if v is None else v for v in vals], index=idx_labels, name="v")
         gb = GroupBy(pd.Series(np.array(keys, dtype=object), index=idx_labels))
         fvals = [None if v is None else Fraction(v) for v in vals]
-        m, s, dom = roll_requests(kind, "f8", codes, fvals, 2, window, mp, None)
+        amask = None if rng.random() < 0.6 else [rng.random() < 0.7 for _ in range(L)]
+        m, s, dom = roll_requests(kind, "f8", codes, fvals, 2, window, mp, amask)
         spec = [None if v is None else Fraction(float(v)) for v in decode_vals(drv.ask([s])[0], dom)]
-        case = dict(level="api", kind=kind, keys=keys, values=vals, window=window, min_periods=mp, index=idx_labels, index_by_groups=by_groups)
+        # the grouping may have served other (masked) calls before
+        warm = rng.choice([None, None, "rolling_masked", "rolling_masked", "shift_masked", "cumsum_masked", "groups"])
+        wmask = [rng.random() < 0.5 for _ in range(L)]
+        case = dict(level="api", kind=kind, keys=keys, values=vals, window=window, min_periods=mp, index=idx_labels, index_by_groups=by_groups, mask=amask,
+                    warmed_with=warm, warm_mask=wmask if warm else None)
         res.note_case(repr(case), True)
         res.count("api_layout", "group-sorted" if by_groups else "input-order")
         if t % 41 == 0:
             res.sample(case)
         try:
-            out = getattr(gb, "rolling_" + kind)(ser, window=window, min_periods=mp, index_by_groups=by_groups)
+            if warm is not None:
+                try:
+                    wm = np.array(wmask, dtype=bool)
+                    if warm == "rolling_masked":
+                        gb.rolling_sum(ser, window=2, min_periods=1, mask=wm)
+                    elif warm == "shift_masked":
+                        gb.shift(ser, 1, mask=wm)
+                    elif warm == "cumsum_masked":
+                        gb.cumsum(ser, mask=wm)
+                    else:
+                        gb.groups
+                except Exception:  # noqa: BLE001
+                    pass
+            out = getattr(gb, "rolling_" + kind)(ser, window=window, min_periods=mp, index_by_groups=by_groups,
+                                                 mask=None if amask is None else np.array(amask, dtype=bool))
         except Exception as e:  # noqa: BLE001
             res.violations.append(dict(sig=dict(level="api", layout=by_groups, what="raised", no_group_rows=all(k is None for k in keys), exc=type(e).__name__), case=case, observed=repr(e)[:300], expected=str(spec),
                                        what="GroupBy.rolling_* raised"))
             continue
         got = [None if pd.isna(x) else to_frac(x) for x in out.tolist()]
         if by_groups:
-            exp_rows = [(order[g], idx_labels[i], spec[i]) for g in range(2) for i in range(L) if codes[i] == g]
+            # the group-sorted layout lists the SELECTED rows only (a mask is equivalent to filtering first, C05)
+            exp_rows = [(order[g], idx_labels[i], spec[i]) for g in range(2) for i in range(L) if codes[i] == g and (amask is None or amask[i])]
             exp_rows = [r for r in exp_rows]
             got_rows = [(ix[0], ix[1], v) for ix, v in zip(out.index.tolist(), got)]
             ok = got_rows == exp_rows
